@@ -191,3 +191,48 @@ Section SpanSolve.
     - left. exact Hlag.
   Qed.
 End SpanSolve.
+
+(* defaults that do not exist: a non-empty span with no more periods than lags (or leads) — `span[self.lags]` /
+   `span[-1 - self.leads]` raises IndexError before anything is solved, whatever the lookup *)
+Section DefaultsOutOfSpan.
+  Variable num : Type.
+  Variables (sub : num -> num -> num) (absf : num -> num) (ltb : num -> num -> bool)
+            (isfin : num -> bool) (zero : num).
+  Variables (ev before after : hook num).
+  Variable L : Type.
+  Variable locate : L -> locres.
+  Notation solve_M := (solve_M num sub absf ltb isfin zero ev before after L locate).
+
+  Theorem solve_default_start_beyond_span d o span end_ s :
+    min_iter o <= max_iter o -> span <> [] -> (length span <= lags d)%nat -> bad_label L locate end_ = false ->
+    solve_M d o span None end_ s = (s, Raise IndexError).
+  Proof.
+    intros Hmm Hne Hl Hb. unfold SolveAll.solve_M. replace (max_iter o <? min_iter o) with false by lia.
+    cbn [bad_label]. rewrite Hb. unfold SolveAll.iter_periods_M.
+    destruct span as [|x r]; [congruence|]. cbn [length Nat.eqb].
+    unfold py_get, py_pos.
+    replace ((Z.of_nat (lags d) <? - Z.of_nat (length (x :: r))) || (Z.of_nat (length (x :: r)) <=? Z.of_nat (lags d))) with true
+      by (symmetry; apply orb_true_iff; right; apply Z.leb_le; lia).
+    reflexivity.
+  Qed.
+
+  Theorem solve_default_end_beyond_span d o span start a s :
+    min_iter o <= max_iter o -> resolves_start L d span start a -> (length span <= leads d)%nat ->
+    bad_label L locate start = false ->
+    solve_M d o span start None s = (s, Raise IndexError).
+  Proof.
+    intros Hmm Hs Hl Hb. pose proof (resolves_start_lt L d span start a Hs) as Ha.
+    unfold SolveAll.solve_M. replace (max_iter o <? min_iter o) with false by lia.
+    rewrite Hb. cbn [bad_label]. unfold SolveAll.iter_periods_M.
+    replace (length span =? 0)%nat with false by (symmetry; apply Nat.eqb_neq; lia).
+    assert (H1 : exists xs, match start with Some x => Some x | None => py_get span (Z.of_nat (lags d)) end = Some xs).
+    { destruct start as [x|]; [exists x; reflexivity|]. cbn in Hs. destruct Hs as [-> Hlt].
+      destruct (nth_error span (lags d)) as [xs|] eqn:E; [|apply nth_error_None in E; lia].
+      exists xs. unfold py_get. rewrite py_pos_nonneg by lia. rewrite Nat2Z.id. exact E. }
+    destruct H1 as [xs ->].
+    unfold py_get at 1, py_pos.
+    replace ((-1 - Z.of_nat (leads d) <? - Z.of_nat (length span)) || (Z.of_nat (length span) <=? -1 - Z.of_nat (leads d))) with true
+      by (symmetry; apply orb_true_iff; left; apply Z.ltb_lt; lia).
+    reflexivity.
+  Qed.
+End DefaultsOutOfSpan.
